@@ -2,5 +2,5 @@
 # offline setup: pre-build the plain and ASan flavours of the native layer into .cache
 cd "$(dirname "$0")" || exit 1
 export PYTHONDONTWRITEBYTECODE=1
-/venv/bin/python -P -c "import sys; sys.path.insert(0, '.'); from vf import build; import runpy; runpy.run_module('vf.build', run_name='__main__')" || echo "setup: pre-build failed (checks rebuild on demand)"
+PYTHONPATH=. /venv/bin/python -P -m vf.build || echo "setup: pre-build failed (checks rebuild on demand)"
 exit 0
